@@ -7,22 +7,12 @@
 # usage: c16.sh <quick|thorough> <seed> <workers>      |  c16.sh replay <file>
 set -u
 HERE="$(cd "$(dirname "${BASH_SOURCE[0]}")" && pwd)"
-SIM="$HERE/sim"
-export CARGO_NET_OFFLINE=true
+. "$HERE/env.sh"
 T0=$(date +%s.%N)
 
-exe() { echo "$SIM/target/$1/asesim"; }
-build() {
-  for p in "$@"; do
-    if ! (cd "$SIM" && CARGO_TARGET_DIR="$SIM/target" cargo build --offline --quiet --profile "$p" 2> "$SIM/target/build-$p.log"); then
-      echo "HARNESS-ERROR: build of profile $p failed:" >&2; tail -40 "$SIM/target/build-$p.log" >&2; return 2
-    fi
-  done
-}
-
 typecheck() { # -> 0 ok, 1 violation, 2 harness error
-  local log="$SIM/target/typecheck.log"
-  if (cd "$HERE/typecheck" && CARGO_TARGET_DIR="$SIM/target/typecheck" cargo check --offline --quiet 2> "$log"); then return 0; fi
+  local log="$TARGET/typecheck.log"
+  if (cd "$HERE/typecheck" && CARGO_TARGET_DIR="$TARGET/typecheck" cargo check --offline --quiet "${CARGO_CFG[@]}" 2> "$log"); then return 0; fi
   if grep -qE "cannot be (sent|shared) between threads safely|is not satisfied.*(Send|Sync)|E0277" "$log" && grep -q "asefile-typecheck\|typecheck" "$log" && ! grep -q "could not compile \`asefile\`" "$log"; then
     return 1
   fi
@@ -46,19 +36,19 @@ digests() { # profile from to outfile
 miri_run() { # seeds_lo seeds_hi rate cases  -> writes $MIRILOG ; returns miri's exit code
   local lo="$1" hi="$2" rate="$3" cases="$4"
   (cd "$SIM" && MIRIFLAGS="-Zmiri-many-seeds=$lo..$hi -Zmiri-preemption-rate=$rate -Zmiri-disable-isolation" \
-     CARGO_TARGET_DIR="$SIM/target/miri" cargo +nightly miri run --offline --quiet -- miri-c16 "$SEED" "$cases" > "$MIRILOG" 2>&1)
+     CARGO_TARGET_DIR="$TARGET/miri" cargo +nightly miri run --offline --quiet "${CARGO_CFG[@]}" -- miri-c16 "$SEED" "$cases" > "$MIRILOG" 2>&1)
 }
 
 if [ "${1:-}" = "replay" ]; then
   f="$2"
   fmt="$(python3 -c 'import json,sys; print(json.load(open(sys.argv[1])).get("format",""))' "$f")"
   SEED="$(python3 -c 'import json,sys; print(json.load(open(sys.argv[1])).get("seed",1))' "$f")"
-  mkdir -p "$SIM/target"
+  mkdir -p "$TARGET"
   case "$fmt" in
     asesim-c16-typecheck)
       typecheck; rc=$?
-      if [ $rc -eq 1 ]; then grep -E "^error" -A12 "$SIM/target/typecheck.log" | head -30; echo "VIOLATION property=C16 replay=$f"; exit 1; fi
-      [ $rc -eq 2 ] && { echo "HARNESS-ERROR: typecheck crate does not build for another reason" >&2; tail -20 "$SIM/target/typecheck.log" >&2; exit 2; }
+      if [ $rc -eq 1 ]; then grep -E "^error" -A12 "$TARGET/typecheck.log" | head -30; echo "VIOLATION property=C16 replay=$f"; exit 1; fi
+      [ $rc -eq 2 ] && { echo "HARNESS-ERROR: typecheck crate does not build for another reason" >&2; tail -20 "$TARGET/typecheck.log" >&2; exit 2; }
       echo "replay $f: Send + Sync holds"; exit 0;;
     asesim-c16-profile-diff)
       build optchk unopt rel || exit 2
@@ -74,7 +64,7 @@ if [ "${1:-}" = "replay" ]; then
       lo="$(python3 -c 'import json,sys; print(json.load(open(sys.argv[1]))["miri_seed"])' "$f")"
       rate="$(python3 -c 'import json,sys; print(json.load(open(sys.argv[1]))["preemption_rate"])' "$f")"
       cases="$(python3 -c 'import json,sys; print(json.load(open(sys.argv[1]))["cases"])' "$f")"
-      MIRILOG="$SIM/target/miri-replay.log"; mkdir -p "$SIM/target"
+      MIRILOG="$TARGET/miri-replay.log"; mkdir -p "$TARGET"
       miri_run "$lo" $((lo+1)) "$rate" "$cases"; rc=$?
       tail -30 "$MIRILOG"
       if [ $rc -ne 0 ] && grep -qE "Undefined Behavior|Data race|C16 violation under Miri|PANIC" "$MIRILOG"; then echo "VIOLATION property=C16 replay=$f"; exit 1; fi
@@ -85,7 +75,7 @@ if [ "${1:-}" = "replay" ]; then
 fi
 
 TIER="${1:-quick}"; SEED="${2:-1}"; WORKERS="${3:-$(nproc)}"
-mkdir -p "$SIM/target" "$HERE/evidence" "$HERE/replays"
+mkdir -p "$TARGET" "$OUT/evidence" "$OUT/replays"
 build optchk unopt rel || exit 2
 VIOL=0; HARN=0
 declare -a NOTES=()
@@ -95,39 +85,39 @@ typecheck; rc=$?
 TYPE_RESULT="holds"
 if [ $rc -eq 1 ]; then
   TYPE_RESULT="violated"
-  R="$HERE/replays/C16-s$SEED-typecheck.json"
-  python3 - "$R" "$SIM/target/typecheck.log" <<'EOF'
+  R="$OUT/replays/C16-s$SEED-typecheck.json"
+  python3 - "$R" "$TARGET/typecheck.log" <<'EOF'
 import json,sys
 log=open(sys.argv[2]).read()
 json.dump({"format":"asesim-c16-typecheck","property":"C16","seed":1,
   "expected":{"kind":"not-send-sync","signature":"C16|not-send-sync|type||AsepriteFile (or a view) is not Send + Sync"},
   "compiler_output":log[-4000:]},open(sys.argv[1],"w"),indent=1)
 EOF
-  grep -E "^error" -A8 "$SIM/target/typecheck.log" | head -24
+  grep -E "^error" -A8 "$TARGET/typecheck.log" | head -24
   echo "VIOLATION property=C16 replay=$R"
   echo "  kind=not-send-sync: asefile::AsepriteFile (or a borrowed view) is not Send + Sync"
   VIOL=1
 elif [ $rc -eq 2 ]; then
   TYPE_RESULT="harness-error"
-  echo "HARNESS-ERROR: typecheck crate failed to build for a reason other than Send/Sync:" >&2; tail -20 "$SIM/target/typecheck.log" >&2
+  echo "HARNESS-ERROR: typecheck crate failed to build for a reason other than Send/Sync:" >&2; tail -20 "$TARGET/typecheck.log" >&2
   HARN=1
 fi
 
 # ---- 2 + 3a. histories, permutations, baton schedules ----------------------------------------
 if [ "$TIER" = "thorough" ]; then PROFS="optchk unopt"; else PROFS="optchk"; fi
 args=(); for p in $PROFS; do args+=(--exe "$p=$(exe "$p")"); done
-"$(exe optchk)" run C16 --tier "$TIER" --seed "$SEED" --workers "$WORKERS" --verif "$HERE" "${args[@]}"; rc=$?
+"$(exe optchk)" run C16 --tier "$TIER" --seed "$SEED" --workers "$WORKERS" --verif "$OUT" --known "$HERE/known_findings.json" "${args[@]}"; rc=$?
 [ $rc -eq 1 ] && VIOL=1
 [ $rc -ge 2 ] && HARN=1
 
 # ---- 4. configurations: same digests in unopt / rel / optchk / a second process ----------------
 if [ "$TIER" = "thorough" ]; then NDIG=24000; else NDIG=1600; fi
-D="$SIM/target/c16-digests"; mkdir -p "$D"
+D="$TARGET/c16-digests"; mkdir -p "$D"
 digests unopt 0 "$NDIG" "$D/unopt.txt" "$WORKERS"
 digests rel 0 "$NDIG" "$D/rel.txt" "$WORKERS"
 digests optchk 0 "$NDIG" "$D/optchk.txt" "$WORKERS"
 digests optchk 0 "$NDIG" "$D/optchk2.txt" 7
-DIFF_RESULT="$(python3 - "$D" "$NDIG" "$SEED" "$HERE/replays" <<'EOF'
+DIFF_RESULT="$(python3 - "$D" "$NDIG" "$SEED" "$OUT/replays" <<'EOF'
 import sys,json,collections
 d,n,seed,rep=sys.argv[1],int(sys.argv[2]),sys.argv[3],sys.argv[4]
 L={}
@@ -172,7 +162,7 @@ fi
 if [ "$TIER" = "thorough" ]; then MSEEDS=160; MCASES=4; RATES="0.05 0.3"; else MSEEDS=8; MCASES=2; RATES="0.1"; fi
 MIRI_RESULT="clean"; MIRI_RUNS=0
 for rate in $RATES; do
-  MIRILOG="$SIM/target/miri-$rate.log"
+  MIRILOG="$TARGET/miri-$rate.log"
   miri_run 0 "$MSEEDS" "$rate" "$MCASES"; rc=$?
   okc=$(grep -c "miri-c16 ok" "$MIRILOG" || true)
   MIRI_RUNS=$(( MIRI_RUNS + okc ))
@@ -182,11 +172,11 @@ for rate in $RATES; do
       # find the failing miri seed: replay seeds one at a time (cheap: only on failure)
       bad=""
       for s in $(seq 0 $((MSEEDS-1))); do
-        MIRILOG="$SIM/target/miri-find.log"
+        MIRILOG="$TARGET/miri-find.log"
         miri_run "$s" $((s+1)) "$rate" "$MCASES" || { bad="$s"; break; }
       done
       [ -z "$bad" ] && bad=0
-      R="$HERE/replays/C16-s$SEED-miri-seed$bad.json"
+      R="$OUT/replays/C16-s$SEED-miri-seed$bad.json"
       python3 - "$R" "$SEED" "$bad" "$rate" "$MCASES" "$MIRILOG" <<'EOF'
 import json,sys
 log=open(sys.argv[6],errors="replace").read()
@@ -209,7 +199,7 @@ done
 
 # ---- evidence: add the three side obligations to what asesim wrote ----------------------------
 T1=$(date +%s.%N)
-python3 - "$HERE/evidence/C16.json" "$TYPE_RESULT" "$DIFF_RESULT" "$MIRI_RESULT" "$MIRI_RUNS" "$MSEEDS" "$MCASES" "$RATES" "$VIOL" "$T0" "$T1" "$TIER" "$SEED" <<'EOF'
+python3 - "$OUT/evidence/C16.json" "$TYPE_RESULT" "$DIFF_RESULT" "$MIRI_RESULT" "$MIRI_RUNS" "$MSEEDS" "$MCASES" "$RATES" "$VIOL" "$T0" "$T1" "$TIER" "$SEED" <<'EOF'
 import json,sys
 p,typ,diff,miri,mruns,mseeds,mcases,rates,viol,t0,t1,tier,seed=sys.argv[1:]
 try:
